@@ -13,7 +13,7 @@
    repaired: detached heap-push goroutines overtaken by shutdown ("fix: heap pushes
    never overtaken...") and bars stranded in width sync after a render error ("fix: a
    render error no longer strands bars..."). *)
-From MPB Require Import Base BaseProofs BarState Container ContainerProofs ContainerLife ContainerProgress Sync SyncProofs GenChecks.
+From MPB Require Import Base BaseProofs BarState Container ContainerProofs ContainerLife ContainerProgress ContainerMatrix Sync SyncProofs GenChecks.
 From MPB.gen Require Import GenApi.
 From Coq Require Import String.
 Open Scope string_scope.
@@ -37,6 +37,14 @@ Theorem C01_width_sync_progress : forall c s,
   wf c -> SInv c s -> (exists i, i < nch c /\ s i <> 2) -> exists a s', sstep c s a = Some s'.
 Proof. exact sync_progress. Qed.
 Print Assumptions C01_width_sync_progress.
+
+(* the exchange is among the bars of the cycle: the cached matrices are never stale (a stale column waits on a
+   departed bar's channel for ever) *)
+Theorem C01_width_sync_matrices_never_stale : forall p a d evs s hl cs cl s',
+  run (init_cst p a d) evs = Some s -> step s (HM_SYNC hl cs cl) = Some s' ->
+  forall x, cnt x (matrix s') = cnt x (heap s').
+Proof. exact matrix_fresh_after_sync. Qed.
+Print Assumptions C01_width_sync_matrices_never_stale.
 
 (* ... every interleaving uses exactly 2n steps ... *)
 Theorem C01_width_sync_bounded : forall c acts s,
